@@ -17,7 +17,7 @@
     they started) is an assumption of this judge, checked only by the runs themselves. *)
 From TT Require Export Judge.C05 Capture.Concurrent.
 From TT Require Export Capture.Solo.
-From TT Require Import Capture.Queries Capture.QueriesProofs Tunnel.TypesProofs Capture.LayerProofs Guest.ProgramProofs Capture.SoloProofs.
+From TT Require Import Capture.Queries Capture.QueriesProofs Tunnel.TypesProofs Capture.LayerProofs Guest.ProgramProofs Capture.SoloProofs Capture.SoloOpen.
 From Coq Require Import Sorting.Sorted.
 
 (** * [storage_wf], executable *)
@@ -294,8 +294,20 @@ Definition tspan_meta (e : tspan) : cs_data := fst (fst (fst (fst (fst e)))).
     forest already) *)
 Definition captured_view (f : cs_data -> bool) (v : list tspan * list tevent) : list tspan * list tevent :=
   (List.filter (fun e => f (tspan_meta e)) (fst v), snd v).
+(** closed flags of the captured spans of [t]: a span is closed iff it is not open at the end of the
+    execution ([oview]: the open flags of all spans of [t], in creation order) *)
+Definition expected_closed (t : nat) (f : cs_data -> bool) (p : prog) : list bool :=
+  map (fun x => negb (snd x))
+      (List.filter (fun x => f (tspan_meta (fst x)))
+                   (combine (fst (tview_of t f [] p))
+                            (oview t (owners_of (p_sites p) (p_ops p)) (spec_run f [] p)))).
+Definition impl_closed (st : cstorage) (t : nat) : list bool :=
+  map (fun r : Storage.span_rec span_payload => spl_closed (sp_payload r))
+      (List.filter (fun r => of_thread_m (Z.of_nat t) (marker (spl_values (sp_payload r)))) (st_spans st)).
+
 Definition workers_ok (T : nat) (p : prog) (f : fexpr) (st : cstorage) : bool :=
-  forallb (fun t => tview_eqb (captured_view (feval f) (tview_of t (feval f) [] p)) (impl_tview st t)) (workers T).
+  forallb (fun t => tview_eqb (captured_view (feval f) (tview_of t (feval f) [] p)) (impl_tview st t)
+                    && list_eqb Bool.eqb (expected_closed t (feval f) p) (impl_closed st t)) (workers T).
 
 (** [p]: one linearization of the per-thread programs (the harness uses: main's prelude, then each
     worker's whole program in turn, then main's postlude); [T]: number of threads *)
@@ -327,8 +339,11 @@ Proof.
   unfold free_scope in H, H'. apply andb_true_iff in H as [W F]. apply andb_true_iff in H' as [W' F'].
   rewrite forallb_forall in F, F'. specialize (F t Ht). specialize (F' t Ht).
   apply andb_true_iff in F as [I S]. apply andb_true_iff in F' as [I' S'].
-  rewrite (tview_solo t (feval f) [] [] p W S I), (tview_solo t (feval f) [] [] p' W' S' I'), (Hs t Ht).
-  reflexivity.
+  unfold expected_closed.
+  rewrite (tview_solo t (feval f) [] [] p W S I), (tview_solo t (feval f) [] [] p' W' S' I').
+  rewrite (oview_solo t (feval f) [] [] p W S I), (oview_solo t (feval f) [] [] p' W' S' I').
+  assert (Esites : p_sites p' = p_sites p) by exact (f_equal p_sites (Hs t Ht)).
+  rewrite (Hs t Ht), Esites. reflexivity.
 Qed.
 
 (** the model's own output passes [judge_sched]: for every execution the API permits, an
